@@ -293,112 +293,79 @@ def _call(ev):
 
 
 def classify(prop, spec, viol, evs=None):
-    """viol: list of (kind, message, event).  Returns a finding key or None.  The caller only honours
-    the key when known_findings.json lists it for this property."""
-    # F23: IndexError out of the bound propagators on an emptied domain: the call is unsatisfiable, or the
-    # domain was emptied by one of the unsound range rules (F17 mixed-sign compare / F24 unbounded integers)
-    def f23(k, m, ev):
-        c = _call(ev)
-        if not (k == "other-exception" and "raised IndexError" in m
-                and re.search(r"variable_bound_\w*propagator\.py", m) is not None):
-            return False
-        return "[unsatisfiable]" in m or (c is not None and (mixed_sign_relational(c) or nonrandom_operand_overflows(c)))
+    """viol: list of (kind, message, event/info).  Every violation is classified on its own; the case is attributed
+    to known findings only if EVERY deciding violation matches some finding's predicate.  Returns the keys joined
+    by '+' (the caller honours them only when known_findings.json lists each key for this property) or None."""
+    if not viol:
+        return None
+    keys = []
+    for v in viol:
+        k = classify_one(prop, spec, v[0], v[1], v[2] if len(v) > 2 else None)
+        if k is None:
+            return None
+        keys.append(k)
+    return "+".join(sorted(set(keys)))
 
-    # F24: non-random operand evaluated with unbounded integers by the range inference -> swizzler slices
-    # outside the field
-    def f24(k, m, ev):
-        c = _call(ev)
-        return (k == "other-exception" and "boolector_slice" in m and "must not be >= width" in m
-                and c is not None and (nonrandom_operand_overflows(c) or mixed_sign_relational(c)))
 
-    def f20(k, m, ev):
-        c = _call(ev)
-        return (k in ("unsat-returned-normally", "formula-mismatch", "value-violates-constraint", "spurious-solve-failure")
-                and c is not None and empty_collection_in(c))
+def classify_one(prop, spec, k, m, ev):
+    c = _call(ev) if isinstance(ev, dict) else None
 
-    def f25(k, m, ev):
-        c = _call(ev)
-        return (k in ("unsat-returned-normally", "formula-mismatch", "value-violates-constraint")
-                and c is not None and aggregate_of_empty_list(c))
-
-    def f10(k, m, ev):
-        return ev is not None and dynref_with_later_instance(spec, ev)
-
-    # C14: unsound range rules
-    def f17(k, m, ev):
-        c = _call(ev)
-        return k in ("range-misses-feasible-value", "feasible-value-starved") and c is not None and mixed_sign_relational(c)
-
-    def f24r(k, m, ev):
-        c = _call(ev)
-        return k in ("range-misses-feasible-value", "feasible-value-starved") and c is not None and nonrandom_operand_overflows(c)
-
-    def f8(k, m, ev):
-        # the swizzler pins only the low d bits of the drawn target value (d = bit length of the largest magnitude
-        # in the inferred range it drew from); the bits above - including the sign bit - are left to the solver.
-        # A feasible value that shares its low d bits with another feasible value can thus have probability 0.
-        if not (k == "feasible-value-starved" and isinstance(ev, dict) and ev.get("starved_field")
-                and ev["starved_field"][1][0] == "int" and ev.get("ranges")):
-            return False
-        w, signed = ev["starved_field"][1][1], ev["starved_field"][1][2]
-        feas = [v for v in ev.get("feasible", []) if isinstance(v, int)]
-        for v in ev.get("starved", []):
-            ok = False
-            for lo, hi in ev["ranges"]:
-                if lo <= v <= hi:
-                    d = max(abs(lo), abs(hi)).bit_length()
-                    if d < w or signed:
-                        if any(u != v and (u - v) % (1 << d) == 0 for u in feas):
-                            ok = True
-            if not ok:
-                return False
-        return True
-
-    if prop == "C14":
-        if _all(viol, f17):
-            return "bounds-mixed-sign-compare"
-        if _all(viol, f24r):
-            return "bounds-unbounded-int-range"
-        if _all(viol, lambda k, m, ev: f17(k, m, ev) or f24r(k, m, ev)):
-            return "bounds-mixed-sign-compare"
-        if _all(viol, f8):
-            return "swizzle-pins-low-bits-only"
-    if _all(viol, f23):
+    # ---- value-range inference (F23, F24, F17, F24r, F8)
+    if (k == "other-exception" and "raised IndexError" in m and re.search(r"variable_bound_\w*propagator\.py", m) is not None
+            and ("[unsatisfiable]" in m or (c is not None and (mixed_sign_relational(c) or nonrandom_operand_overflows(c))))):
         return "bounds-empty-domain-indexerror"
-    if _all(viol, f24):
+    if (k == "other-exception" and "boolector_slice" in m and "must not be >= width" in m
+            and c is not None and (nonrandom_operand_overflows(c) or mixed_sign_relational(c))):
         return "bounds-unbounded-int-slice-exception"
-    if prop == "C06" and _all(viol, f10):
+    if prop == "C14":
+        if k in ("range-misses-feasible-value", "feasible-value-starved") and c is not None and mixed_sign_relational(c):
+            return "bounds-mixed-sign-compare"
+        if k in ("range-misses-feasible-value", "feasible-value-starved") and c is not None and nonrandom_operand_overflows(c):
+            return "bounds-unbounded-int-range"
+        if _f8(k, m, ev):
+            return "swizzle-pins-low-bits-only"
+    # ---- dynamic constraints (F10)
+    if prop == "C06" and isinstance(ev, dict) and "op" in ev and dynref_with_later_instance(spec, ev):
         return "dynamic-ref-binds-last-constructed-instance"
-    def f27(k, m, ev):
-        c = _call(ev)
-        return k in ("spurious-solve-failure", "formula-unsat-but-ref-sat") and c is not None and uses_on_random_size_list(c, "foreach")
-
-    def f26(k, m, ev):
-        c = _call(ev)
-        return (k in ("value-violates-constraint", "unsat-returned-normally", "spurious-solve-failure")
-                and c is not None and uses_on_random_size_list(c, "member"))
-
-    def f9(k, m, ev):
-        c = _call(ev)
-        return (k in ("value-violates-constraint", "unsat-returned-normally", "spurious-solve-failure", "other-exception")
-                and c is not None and uses_on_random_size_list(c, "aggregate"))
-
-    def f28(k, m, ev):
-        return k in ("list-edit-mismatch", "list-views-disagree") and failed_call_before_on_random_size_list(spec, ev)
-
-    if prop in ("C04", "C02"):
-        if _all(viol, f27):
+    # ---- lists (F27, F26, F9, F28)
+    if prop in ("C04", "C02") and c is not None:
+        if k in ("spurious-solve-failure", "formula-unsat-but-ref-sat") and uses_on_random_size_list(c, "foreach"):
             return "foreach-over-random-size-list-unguarded"
-        if _all(viol, f26):
+        if (k in ("value-violates-constraint", "unsat-returned-normally", "spurious-solve-failure")
+                and uses_on_random_size_list(c, "member")):
             return "membership-in-random-size-list-not-enforced"
-        if _all(viol, f9):
+        if (k in ("value-violates-constraint", "unsat-returned-normally", "spurious-solve-failure", "other-exception")
+                and uses_on_random_size_list(c, "aggregate")):
             return "aggregate-of-random-size-list-stale-size"
-        if _all(viol, f28):
-            return "failed-call-leaves-random-size-list-extended"
-        if _all(viol, lambda k, m, ev: f27(k, m, ev) or f26(k, m, ev) or f9(k, m, ev) or f28(k, m, ev)):
-            return "random-size-list-combined"
-    if _all(viol, f20):
+    if prop == "C04" and k in ("list-edit-mismatch", "list-views-disagree") and failed_call_before_on_random_size_list(spec, ev):
+        return "failed-call-leaves-random-size-list-extended"
+    # ---- empty collections (F20, F25)
+    if (k in ("unsat-returned-normally", "formula-mismatch", "value-violates-constraint", "spurious-solve-failure")
+            and c is not None and empty_collection_in(c)):
         return "in-empty-collection-lowered-to-true"
-    if _all(viol, f25):
+    if (k in ("unsat-returned-normally", "formula-mismatch", "value-violates-constraint")
+            and c is not None and aggregate_of_empty_list(c)):
         return "aggregate-of-empty-list-dropped"
     return None
+
+
+def _f8(k, m, ev):
+    # the swizzler pins only the low d bits of the drawn target value (d = bit length of the largest magnitude
+    # in the inferred range it drew from); the bits above - including the sign bit - are left to the solver.
+    # A feasible value that shares its low d bits with another feasible value can thus have probability 0.
+    if not (k == "feasible-value-starved" and isinstance(ev, dict) and ev.get("starved_field")
+            and ev["starved_field"][1][0] == "int" and ev.get("ranges")):
+        return False
+    w, signed = ev["starved_field"][1][1], ev["starved_field"][1][2]
+    feas = [v for v in ev.get("feasible", []) if isinstance(v, int)]
+    for v in ev.get("starved", []):
+        ok = False
+        for lo, hi in ev["ranges"]:
+            if lo <= v <= hi:
+                d = max(abs(lo), abs(hi)).bit_length()
+                if d < w or signed:
+                    if any(u != v and (u - v) % (1 << d) == 0 for u in feas):
+                        ok = True
+        if not ok:
+            return False
+    return True
